@@ -1,4 +1,5 @@
 import Vanguard.Lemmas.Outcome
+import Vanguard.Lemmas.RespHeaders
 import Vanguard.Lemmas.WellFramed
 import Vanguard.Lemmas.ReframeSplit
 /-!
@@ -158,5 +159,29 @@ example : ¬ ({ items := [.endFrame 2 {}, .raw [1]] } : Sink).endLast := by
 /-- ... and the invariant rejects a state that claims to be open while an end frame is out. -/
 example (o : Op) (src : Source) : ¬ Good { op := o, src := src, sink := { items := [.endFrame 2 {}] } } := by
   intro h; have := h.opened rfl; simp [Sink.endMarks, Item.isEnd] at this
+
+
+/-! ### a trailers-only gRPC response announces no second status -/
+
+private theorem ctNeTrailer : canonKey (s "Content-Type") ≠ canonKey (s "Trailer") := by decide +kernel
+
+/-- **A gRPC response whose end is in the head announces no trailers** (the behaviour fix 6052d8d restored): when
+    the response metadata already carries the end, `addProtocolResponseHeaders` of the gRPC client leaves the
+    `Trailer` header as it was, so `Grpc-Status` / `Grpc-Message` are not announced - and then sent - a second time
+    next to the status, message and details the head already has. -/
+theorem grpc_trailers_only_declares_nothing (rm : RespMeta) (k : Sink) (e : RespEnd) (he : rm.end = some e)
+    (hav : ∀ t ∈ e.trailers, t.1 ≠ canonKey (s "Trailer")) :
+    (addResponseHeaders .grpc rm k).2.hdr.values (s "Trailer") = k.hdr.values (s "Trailer") := by
+  unfold addResponseHeaders
+  have hc : (ClientForm.grpc == ClientForm.grpc) = true := by decide
+  have := foldl_setRaw_values id e.trailers (k.hdr.set (s "Content-Type") (s "application/grpc+" ++ rm.codec)) (s "Trailer")
+    (fun t ht => hav t ht)
+  simp only [id] at this
+  simp only [hc, if_true, he, Option.isNone_some, Bool.and_false, Bool.false_eq_true, if_false, writeEndToHeaders, this,
+    Hdr.values_set_ne _ _ _ _ ctNeTrailer]
+
+/-- Non-vacuity: an error end with one application trailer. -/
+example : (addResponseHeaders .grpc { «end» := some { err := some { code := 5, msg := .text (s "gone"), details := 1 }, trailers := [(s "X-T", [[7]])] } } {}).2.hdr.values (s "Trailer") = [] := by
+  decide +kernel
 
 end Vanguard.C03
